@@ -33,11 +33,15 @@ class Tree:
     def cond(self, truth):
         r = self.rng
         if truth:
-            return r.choice([".if 1", ".if 5-4", ".if one", ".ifdef YES", ".ifndef NO", ".if two == 2", ".if 3 > 2"])
-        return r.choice([".if 0", ".if 1-1", ".if zero", ".ifdef NO", ".ifndef YES", ".if two == 3", ".if 2 > 3"])
+            # "holds" = evaluates to non-zero, negative values included
+            return r.choice([".if 1", ".if 5-4", ".if one", ".ifdef YES", ".ifndef NO", ".if two == 2", ".if 3 > 2", ".if -1", ".if 1-2", ".if one - two",
+                             ".if ~zero", ".if 0-255", ".if 1 << 63", ".if 256", ".if 65536", ".if low(256) + high(256)", "#if 1", ".if !zero"])
+        return r.choice([".if 0", ".if 1-1", ".if zero", ".ifdef NO", ".ifndef YES", ".if two == 3", ".if 2 > 3", ".if -0", ".if one - 1", ".if ~(0-1)",
+                         ".if low(256)", ".if 1 >> 1", "#if 0", ".if !one", ".if !(0-1)"])
 
     def elif_(self, truth):
-        return ".elif " + (self.rng.choice(["1", "one", "two-1", "7"]) if truth else self.rng.choice(["0", "zero", "two-2", "1==2"]))
+        return ".elif " + (self.rng.choice(["1", "one", "two-1", "7", "-1", "one-two", "~zero", "0-7", "1<<63"]) if truth
+                           else self.rng.choice(["0", "zero", "two-2", "1==2", "-0", "~(0-1)", "!one"]))
 
     def block(self, depth, truths, has_else, live):
         """-> list of (line, selected?)"""
@@ -116,7 +120,7 @@ def run(res):
     vh, exe = P.base(res, PROP)
     rng = random.Random(res.seed)
     trees = exhaustive(rng)
-    for _ in range(600 if res.tier == "quick" else 60000):
+    for _ in range(600 if res.tier == "quick" else 300000):
         t = Tree(rng)
         n = rng.randrange(1, 5)
         trees.append(t.block(rng.choice([0, 1, 2, 3]), [rng.random() < 0.4 for _ in range(n)], rng.random() < 0.5, True))
